@@ -146,6 +146,16 @@ class GenObj:
 # private fields (caches ...).  For registered classes the concrete twin of a view is obtained by running the
 # class's REAL constructor on the view, so that harmless representation changes do not disturb the proofs while
 # a method that leaves such a field inconsistent with the view is still caught.
+INIT_BUILT = {}     # class -> (args, kwargs) of its real constructor
+
+
+def register_init_built(cls, *args, **kwargs):
+    """objects of this class are produced by running the class's REAL __init__ (symbolically / natively) and then
+    overlaying the fields the proof unit states; attributes the unit does not mention keep what __init__ gave them,
+    so a refactor that adds a private attribute in __init__ cannot make a proof unit trip over a missing field"""
+    INIT_BUILT[cls] = (args, kwargs)
+
+
 CANON = []      # (base class, tuple of view fields, rebuild(interp, cls, view) -> object)
 
 
